@@ -120,8 +120,9 @@ CHECKS = {
 'C08': dict(
    text='The real ThreadPool.cpp/Thread.cpp/Runnable are compiled to LLVM IR, inlined and turned into resumable step functions (owner thread and worker threads have separate roots); a scheduler written in C executes K steps where the thread '
         'chosen at each step is a solver variable. Scheduling points: every synchronisation operation, every access to the unsynchronised flag ThreadPool::m_isRunning (and Thread::m_isFinished), and the window between evaluating the wait '
-        'predicate and blocking. For owner programs start / stop / restart (always ending in stop()) CBMC decides over every schedule: no deadlock (a join or wait that can never be enabled is reported), with "complete" queries also that '
-        'K steps suffice for every schedule to terminate; after stop(): getThreadCount()==0, no task running, every submitted task destroyed exactly once; a later start() works; worker count <= maximum. '
+        'predicate and blocking (racy configuration). For owner programs start / stop / restart (always ending in stop()) CBMC decides over every schedule: no deadlock (a join or wait that can never be enabled is reported); '
+        'after stop(): getThreadCount()==0, no task running, every submitted task destroyed exactly once; a later start() works; worker count <= maximum. Quick tier: the racy configuration over every schedule prefix of 20 steps, plus the '
+        'sync-only configuration (side condition: no data race, C15) with a BOUND assertion that 20 steps suffice for EVERY schedule to terminate, i.e. stop() returns on all of them; thorough adds complete racy runs (K=26), restart, update and two workers. '
         'Counterexample schedules are replayed on the real g++ build with the schedule shim (real sources with a yield hook at the same racy accesses).',
    note=TB + 'kissat as SAT back end; one worker (quick) / two workers (thorough), <= 2 tasks; non-expiring workers; sequential consistency; one static buffer per new-site and ghost-state (not pointer-check) detection of use after delete; pointer checks off for these units (bounds and division on).',
    technique='SAT-based bounded model checking (CBMC + kissat) of the sequentialised real ThreadPool/Thread code; schedule as solver variable; deadlock detector', design='4/C08 + 8.4'),
